@@ -3,19 +3,20 @@ import HexVerif.Lemmas.XcmpActuals
   Actuals that contain calls, at the level of the machine: `genCallActuals` evaluates them first,
   left to right, and parks each value in a temporary; `loadActuals` then stores every actual into
   its parameter slot - a parked one from its temporary, the others by evaluating them.
-  The lemmas here speak of a list of annotated actuals with the words they stand for, relative to
-  ONE source state `σ` (calls of pure functions do not change what the memory represents).
+  The lemmas here speak of a list of annotated actuals with a predicate on the word each stands for
+  (the address of a string literal depends on the state of the generator), relative to ONE source
+  state `σ` (calls of pure functions do not change what the memory represents).
 -/
 namespace Hex.C01s
 open Hex Hex.X Hex.Xcmp Hex.IAm Hex.Asm
 
 /-- The temporaries from `sv` on hold the words of the actuals that contain calls. -/
-def SavedOk (K : PCtx) (mem : Mem) : List AExpr → List Word → Nat → Prop
+def SavedOk (K : PCtx) (mem : Mem) : List AExpr → List (Word → Prop) → Nat → Prop
   | a :: as, w :: ws, sv =>
-    if containsCall a then mem.read (K.slot sv) = w ∧ SavedOk K mem as ws (sv + 1) else SavedOk K mem as ws sv
+    if containsCall a then w (mem.read (K.slot sv)) ∧ SavedOk K mem as ws (sv + 1) else SavedOk K mem as ws sv
   | _, _, _ => True
 
-theorem SavedOk.frame {K : PCtx} {mem mem' : Mem} : ∀ (args : List AExpr) (ws : List Word) (sv : Nat),
+theorem SavedOk.frame {K : PCtx} {mem mem' : Mem} : ∀ (args : List AExpr) (ws : List (Word → Prop)) (sv : Nat),
     SavedOk K mem args ws sv →
     (∀ k, sv ≤ k → k < sv + countCalls args → mem'.read (K.slot k) = mem.read (K.slot k)) → SavedOk K mem' args ws sv := by
   intro args
@@ -36,24 +37,24 @@ theorem SavedOk.frame {K : PCtx} {mem mem' : Mem} : ∀ (args : List AExpr) (ws 
         exact ih ws' sv h (fun k h1 h2 => hk k h1 (by omega))
 
 /-- The actuals without calls have their (tight) code triples. -/
-def LoadSpec (K : PCtx) (σ : X.St) : List AExpr → List Word → Prop
-  | a :: as, w :: ws => (containsCall a = false → ExecAt true K a w σ) ∧ LoadSpec K σ as ws
+def LoadSpec (K : PCtx) (σ : X.St) : List AExpr → List (Word → Prop) → Prop
+  | a :: as, w :: ws => (containsCall a = false → ExecP true K a w σ) ∧ LoadSpec K σ as ws
   | _, _ => True
 
 /-- The actuals with calls have their code triples. -/
-def SaveSpec (K : PCtx) (σ : X.St) : List AExpr → List Word → Prop
-  | a :: as, w :: ws => (containsCall a = true → ExecAt false K a w σ) ∧ SaveSpec K σ as ws
+def SaveSpec (K : PCtx) (σ : X.St) : List AExpr → List (Word → Prop) → Prop
+  | a :: as, w :: ws => (containsCall a = true → ExecP false K a w σ) ∧ SaveSpec K σ as ws
   | _, _ => True
 
 /-- **`loadActuals`**: every word ends up in its parameter slot. -/
-theorem exec_loadItems (K : PCtx) (wf : K.WF) (σ : X.St) : ∀ (args : List AExpr) (ws : List Word), args.length = ws.length →
+theorem exec_loadItems (K : PCtx) (wf : K.WF) (σ : X.St) : ∀ (args : List AExpr) (ws : List (Word → Prop)), args.length = ws.length →
     LoadSpec K σ args ws →
     ∀ (p saved : Nat) (gs : GS) (code : Code) (gs' : GS) (i : Nat) (a b : Word) (mem : Mem),
       loadActuals K.ctx args p saved gs = .ok (code, gs') → At K.env.ds i (K.low code) → Rep K σ mem →
       SavedOk K mem args ws saved → saved + countCalls args ≤ gs.offset →
       gs'.size + (p + args.length) ≤ K.S → K.nlocals ≤ gs.offset → gs.offset ≤ gs.size → ConstsIn K gs' →
       ∃ a' b' mem', Steps K.env (cfg i a b mem) σ.io (cfg (i + (K.low code).length) a' b' mem') σ.io ∧ Rep K σ mem' ∧
-        (∀ k (hk : k < ws.length), mem'.read (K.sp + p + k) = ws[k]) ∧
+        (∀ k (hk : k < ws.length), ws[k] (mem'.read (K.sp + p + k))) ∧
         (∀ q, q < p → mem'.read (K.sp + q) = mem.read (K.sp + q)) ∧
         FrmC K gs.offset K.S mem mem' := by
   intro args
@@ -70,7 +71,7 @@ theorem exec_loadItems (K : PCtx) (wf : K.WF) (σ : X.St) : ∀ (args : List AEx
     intro ws hlen hspec p saved gs code gs' i a b mem hg hat hr hsv hsvb hb hnl hos hci
     cases ws with
     | nil => simp at hlen
-    | cons v ws' =>
+    | cons P ws' =>
       simp only [List.length_cons, Nat.add_right_cancel_iff] at hlen
       obtain ⟨hhead, hrest⟩ := hspec
       have e0 := loadActuals_eff _ _ _ _ _ _ _ hg
@@ -101,8 +102,10 @@ theorem exec_loadItems (K : PCtx) (wf : K.WF) (σ : X.St) : ∀ (args : List AEx
         have hadrS := slot_addr K.sp K.S (-(saved : Int)) (K.slot saved) hslot
         obtain ⟨hss1, _⟩ := wf.slot_ok saved hsvS
         have s0 := Step.ldam (env := K.env) (cfg i a b mem) σ.io 1 _ t0 (ld_one mem)
+        obtain ⟨v, hvdef⟩ : ∃ v, v = mem.read (K.slot saved) := ⟨_, rfl⟩
+        rw [← hvdef] at hsv0
         have hld : Isa.ld mem (mem.read 1 + IAm.W ((K.S : Int) - 1 + -(saved : Int))) = some v := by
-          rw [hr.sp, hadrS, ld_ofNat _ _ hss1, hsv0]
+          rw [hr.sp, hadrS, ld_ofNat _ _ hss1, hvdef]
         have s1 := Step.ldai (env := K.env) (cfg (i + 1) (mem.read 1) b mem) σ.io _ _ t1 hld
         have s2 := Step.ldbm (env := K.env) (cfg (i + 1 + 1) v b mem) σ.io 1 _ t2 (ld_one mem)
         have hadr : mem.read 1 + IAm.W (p : Int) = BitVec.ofNat 32 (K.sp + p) := by
@@ -144,12 +147,14 @@ theorem exec_loadItems (K : PCtx) (wf : K.WF) (σ : X.St) : ∀ (args : List AEx
           | zero =>
             simp only [Nat.add_zero, List.getElem_cons_zero]
             rw [hkeep p (by omega), Mem.read_write_same _ _ _ hsl1]
+            exact hsv0
           | succ k' =>
             simp only [List.length_cons] at hk
             have := hvals k' (by omega)
             simp only [List.getElem_cons_succ]
-            rw [← this]
-            congr 1; omega
+            have e : K.sp + p + (k' + 1) = K.sp + (p + 1) + k' := by omega
+            rw [e]
+            exact this
         · intro q hq
           rw [hkeep q (by omega), Mem.read_write_other _ _ _ _ (by omega)]
         · intro ad hsp hna had
@@ -165,7 +170,7 @@ theorem exec_loadItems (K : PCtx) (wf : K.WF) (σ : X.St) : ∀ (args : List AEx
         have e2 := loadActuals_eff _ _ _ _ _ _ _ hg2
         simp only [low_append, List.append_assoc] at hat ⊢
         have hA := hhead hcc
-        obtain ⟨b1, mem1, st1, rep1, frm1⟩ := hA gs c gs1 i a b mem hg1 hat.left hr
+        obtain ⟨v, b1, mem1, hPv, st1, rep1, frm1⟩ := hA gs c gs1 i a b mem hg1 hat.left hr
           (by have := e2.2.1; omega) hnl (hci.of_eff e2)
         rw [hiB_true] at frm1
         have hmid : K.low [iLDBM SP_OFFSET, iSTAI (p : Int)] = [.imm 0x1 1, .imm 0x8 (p : Int)] := rfl
@@ -217,12 +222,14 @@ theorem exec_loadItems (K : PCtx) (wf : K.WF) (σ : X.St) : ∀ (args : List AEx
           | zero =>
             simp only [Nat.add_zero, List.getElem_cons_zero]
             rw [hkeep p (by omega), Mem.read_write_same _ _ _ hsl1]
+            exact hPv
           | succ k' =>
             simp only [List.length_cons] at hk
             have := hvals k' (by omega)
             simp only [List.getElem_cons_succ]
-            rw [← this]
-            congr 1; omega
+            have e : K.sp + p + (k' + 1) = K.sp + (p + 1) + k' := by omega
+            rw [e]
+            exact this
         · intro q hq
           rw [hkeep q (by omega), Mem.read_write_other _ _ _ _ (by omega)]
           apply frm1 _ (by omega) (wf.not_inArr _ (by omega))
@@ -240,7 +247,7 @@ theorem exec_loadItems (K : PCtx) (wf : K.WF) (σ : X.St) : ∀ (args : List AEx
 
 theorem genCallActuals_facts (ctx : Xcmp.Ctx) : ∀ (args : List AExpr) (gs : GS) (code : Code) (gs' : GS),
     genCallActuals ctx args gs = .ok (code, gs') →
-    gs'.offset = gs.offset + countCalls args ∧ gs.size ≤ gs'.size ∧ (∀ e ∈ gs.constMap, e ∈ gs'.constMap) ∧
+    gs'.offset = gs.offset + countCalls args ∧ gs.size ≤ gs'.size ∧ (∀ e ∈ gs.items, e ∈ gs'.items) ∧
     (gs.offset ≤ gs.size → gs'.offset ≤ gs'.size) := by
   intro args
   induction args with
@@ -262,14 +269,14 @@ theorem genCallActuals_facts (ctx : Xcmp.Ctx) : ∀ (args : List AExpr) (gs : GS
 
 /-- **`genCallActuals`**: the actuals with calls are evaluated in order, each value is parked in a
     temporary. -/
-theorem exec_saveItems (K : PCtx) (wf : K.WF) (σ : X.St) : ∀ (args : List AExpr) (ws : List Word), args.length = ws.length →
+theorem exec_saveItems (K : PCtx) (wf : K.WF) (σ : X.St) : ∀ (args : List AExpr) (ws : List (Word → Prop)), args.length = ws.length →
     SaveSpec K σ args ws →
     ∀ (gs : GS) (code : Code) (gs' : GS) (i : Nat) (a b : Word) (mem : Mem),
       genCallActuals K.ctx args gs = .ok (code, gs') → At K.env.ds i (K.low code) → Rep K σ mem →
       gs'.size ≤ K.S → K.nlocals ≤ gs.offset → gs'.offset ≤ gs'.size → ConstsIn K gs' →
       ∃ a' b' mem', Steps K.env (cfg i a b mem) σ.io (cfg (i + (K.low code).length) a' b' mem') σ.io ∧ Rep K σ mem' ∧
         SavedOk K mem' args ws gs.offset ∧ gs'.offset = gs.offset + countCalls args ∧ gs.size ≤ gs'.size ∧
-        (∀ e ∈ gs.constMap, e ∈ gs'.constMap) ∧ FrmC K gs.offset K.S mem mem' := by
+        (∀ e ∈ gs.items, e ∈ gs'.items) ∧ FrmC K gs.offset K.S mem mem' := by
   intro args
   induction args with
   | nil =>
@@ -283,7 +290,7 @@ theorem exec_saveItems (K : PCtx) (wf : K.WF) (σ : X.St) : ∀ (args : List AEx
     intro ws hlen hspec gs code gs' i a b mem hg hat hr hsz hnl hos hci
     cases ws with
     | nil => simp at hlen
-    | cons v ws' =>
+    | cons P ws' =>
       simp only [List.length_cons, Nat.add_right_cancel_iff] at hlen
       obtain ⟨hhead, hrest⟩ := hspec
       rcases genCallActuals_cons_inv _ _ _ _ _ _ hg with ⟨hcc, c, gs1, cs, hg1, hg2, hcode⟩ | ⟨hcc, hg2⟩
@@ -303,7 +310,7 @@ theorem exec_saveItems (K : PCtx) (wf : K.WF) (σ : X.St) : ∀ (args : List AEx
           rw [hgs2] at f2s
           simp only at f2s
           omega
-        obtain ⟨b1, mem1, st1, rep1, frm1⟩ := hA gs c gs1 i a b mem hg1 hat.left hr (by omega) hnl
+        obtain ⟨v, b1, mem1, hPv, st1, rep1, frm1⟩ := hA gs c gs1 i a b mem hg1 hat.left hr (by omega) hnl
           (fun x hx => hci x (f2c x (by rw [hgs2]; exact hx)))
         rw [hiB_false] at frm1
         have hoff : gs1.offset < K.S := by omega
@@ -345,7 +352,8 @@ theorem exec_saveItems (K : PCtx) (wf : K.WF) (σ : X.St) : ∀ (args : List AEx
           rw [← e1o]
           rw [frm3 _ (slot_ge K gs1.offset hoff) (wf.not_inArr _ (by unfold PCtx.slot; omega))
             (fun k h1 h2 e => by have := slot_inj K gs1.offset k hoff (by omega) e; omega)]
-          exact Mem.read_write_same _ _ _ hsl1
+          rw [Mem.read_write_same _ _ _ hsl1]
+          exact hPv
         · simp only [countCalls, hcc, if_true]
           omega
         · intro ad hsp hna had
